@@ -112,6 +112,16 @@ func init() {
 		r.real.StrictSlash(m.term(a[1]).IsTrue())
 		return r.ptr
 	}
+	natives["(*"+pkg+".Router).UseEncodedPath"] = func(m *Machine, c *frame, fn *ssa.Function, a []Value) Value {
+		r := m.muxRouterOf(a[0])
+		r.real.UseEncodedPath()
+		return r.ptr
+	}
+	natives["(*"+pkg+".Router).SkipClean"] = func(m *Machine, c *frame, fn *ssa.Function, a []Value) Value {
+		r := m.muxRouterOf(a[0])
+		r.real.SkipClean(m.term(a[1]).IsTrue())
+		return r.ptr
+	}
 	// route constructors on a router
 	natives["(*"+pkg+".Router).Methods"] = func(m *Machine, c *frame, fn *ssa.Function, a []Value) Value {
 		r := m.muxRouterOf(a[0])
@@ -186,7 +196,8 @@ func init() {
 			m.goPanicf("request without URL")
 		}
 		path := constStr(m, m.structField(*up, urlT, "Path"), "request path")
-		nreq := &http.Request{Method: method, URL: &url.URL{Path: path}, Header: http.Header{}}
+		rawPath := constStr(m, m.structField(*up, urlT, "RawPath"), "request raw path")
+		nreq := &http.Request{Method: method, URL: &url.URL{Path: path, RawPath: rawPath}, Header: http.Header{}}
 		var match mux.RouteMatch
 		var handler Value
 		matched := r.real.Match(nreq, &match)
@@ -266,6 +277,19 @@ func init() {
 	}
 	natives["(*github.com/rs/cors.Cors).Handler"] = func(m *Machine, c *frame, fn *ssa.Function, a []Value) Value { return a[1] }
 	natives["go.opencensus.io/plugin/ochttp.WithRouteTag"] = func(m *Machine, c *frame, fn *ssa.Function, a []Value) Value { return a[0] }
+	// the opencensus HTTP wrapper hands the request to the handler it wraps
+	natives["(*go.opencensus.io/plugin/ochttp.Handler).ServeHTTP"] = func(m *Machine, c *frame, fn *ssa.Function, a []Value) Value {
+		p, _ := a[0].(*Value)
+		if p == nil {
+			m.goPanicf("nil ochttp.Handler")
+		}
+		inner := m.structField(*p, m.eng.nativeType("go.opencensus.io/plugin/ochttp.Handler"), "Handler")
+		if it, ok := inner.(Iface); !ok || it.T == nil {
+			m.unsupported("ochttp.Handler without an inner handler (http.DefaultServeMux)")
+		}
+		m.invokeMethod(c, inner, "ServeHTTP", a[1], a[2])
+		return nil
+	}
 	natives["(*net/http/httputil.ReverseProxy).ServeHTTP"] = func(m *Machine, c *frame, fn *ssa.Function, a []Value) Value {
 		hook := m.eng.pkg.Func("vrfDaemonServe")
 		if hook == nil {
